@@ -182,6 +182,7 @@ def check_row_sites(prog: Program, rep, rule: str) -> None:
         vv_txt = norm(vv)
         # (a) speed is the magnitude of the velocity vector passed
         ok, why = False, ''
+        pre_unread: list = []
         if isinstance(sp, ast.Call) and isinstance(sp.func, ast.Attribute) and sp.func.attr == 'magnitude' \
                 and norm(sp.func.value) == vv_txt and not sp.args:
             ok = True
@@ -195,13 +196,19 @@ def check_row_sites(prog: Program, rep, rule: str) -> None:
                     continue
                 if val is not None and not F.in_loop(d) and norm(val) == 'self.muzzle_velocity':
                     continue        # before the first step: |V0| = muzzle velocity (C01.R3)
+                if not F.in_loop(d):
+                    pre_unread.append(d)      # set before the first step in a spelling the rule does not read: not judged
+                    continue
                 bad.append(d)
             ok = bool(defs) and not bad
             if bad:
                 why = 'reaching definition(s) ' + '; '.join(f'line {d.line}: {d.text()[:60]}' for d in bad)
         else:
             why = f'speed argument is {norm(sp)}'
-        if ok:
+        if ok and pre_unread:
+            rep.undecided(rule, mod.where(call), f'{site}: speed before the first step',
+                          f'`{pre_unread[0].text()[:60]}` is not read; inside the loop the speed is |{vv_txt}|')
+        elif ok:
             rep.ok(rule, mod.where(call), f'{site}: speed = |{vv_txt}|')
         else:
             rep.fail(rule, mod.path, call.lineno, fq, f'{key}:speed',
